@@ -61,9 +61,9 @@ theorem owns_ordered (tr : Trace) (hwf : WF tr) (k i j : Nat) (ei ej : Ev)
 /-- **policy ⇒ race freedom**: in every well-formed trace whose accesses obey a protection policy
     and whose objects are safely published, any two conflicting accesses are ordered by
     happens-before -/
-theorem policy_race_free (tr : Trace) (pol : Nat → Disc) (hwf : WF tr) (hc : Conforms tr pol)
-    (hinit : InitFirst tr) : ∀ i j, ¬ Race tr i j := by
-  intro i j ⟨hij, ei, ej, x, wi, ai, wj, aj, hi, hj, hai, haj, hne, hw, hat, hnhb⟩
+theorem policy_race_free (tr : Trace) (pol : Nat → Disc) (S : Nat → Prop) (hwf : WF tr) (hc : Conforms tr pol S)
+    (hinit : InitFirst tr) : ∀ x i j, S x → ¬ RaceOn tr x i j := by
+  intro x i j hS ⟨hij, ei, ej, wi, ai, wj, aj, hi, hj, hai, haj, hne, hw, hat, hnhb⟩
   apply hnhb
   have hacc : ei.op.access ≠ none := by rw [hai]; simp
   cases hii : ei.init with
@@ -77,8 +77,8 @@ theorem policy_race_free (tr : Trace) (pol : Nat → Disc) (hwf : WF tr) (hc : C
       have := (hinit.before j i ej ei x wj aj wi ai hj hi haj hai hji hii).1
       omega
     | false =>
-      have c1 := hc i ei x wi ai hi hii hai
-      have c2 := hc j ej x wj aj hj hji haj
+      have c1 := hc i ei x wi ai hS hi hii hai
+      have c2 := hc j ej x wj aj hS hj hji haj
       cases hp : pol x with
       | immutable =>
         rw [hp] at c1 c2; simp only at c1 c2
